@@ -22,6 +22,71 @@ func init() {
 
 // process-local struct types: Haqq struct types that hold wiring and live as long as the process
 func isProcessLocalType(t types.Type) bool {
+	if isProcessLocalRoot(t) {
+		return true
+	}
+	// a Haqq struct type held (directly, or through pointer/map/slice/array) in a field of a process-local type
+	// lives as long as the process too (e.g. a cache object a keeper points to)
+	n := namedName(t)
+	if n == "" || !isHaqqPath(namedPkgPath(t)) {
+		return false
+	}
+	return heldByProcessLocal()[namedPkgPath(t)+"."+n]
+}
+
+var heldMemo map[string]bool
+var heldRoots []types.Type
+
+// registerProcessLocalRoots is called once per program with every named Haqq type; it computes the closure.
+func heldByProcessLocal() map[string]bool {
+	if heldMemo != nil {
+		return heldMemo
+	}
+	heldMemo = map[string]bool{}
+	var visit func(t types.Type, depth int)
+	visit = func(t types.Type, depth int) {
+		if depth > 6 {
+			return
+		}
+		switch x := t.(type) {
+		case *types.Pointer:
+			visit(x.Elem(), depth)
+		case *types.Slice:
+			visit(x.Elem(), depth)
+		case *types.Array:
+			visit(x.Elem(), depth)
+		case *types.Map:
+			visit(x.Elem(), depth)
+		case *types.Named:
+			st, ok := x.Underlying().(*types.Struct)
+			if !ok || x.Obj().Pkg() == nil || !isHaqqPath(x.Obj().Pkg().Path()) {
+				return
+			}
+			key := x.Obj().Pkg().Path() + "." + x.Obj().Name()
+			if heldMemo[key] {
+				return
+			}
+			// generated message types are values, not long-lived holders
+			if strings.HasSuffix(x.Obj().Pkg().Path(), "/types") && !isProcessLocalRoot(x) {
+				return
+			}
+			heldMemo[key] = true
+			for i := 0; i < st.NumFields(); i++ {
+				visit(st.Field(i).Type(), depth+1)
+			}
+		}
+	}
+	for _, rt := range heldRoots {
+		if st, ok := deref(rt).Underlying().(*types.Struct); ok {
+			for i := 0; i < st.NumFields(); i++ {
+				visit(st.Field(i).Type(), 0)
+			}
+		}
+	}
+	return heldMemo
+}
+
+func isProcessLocalRoot(t types.Type) bool {
 	n := namedName(t)
 	if n == "" || !isHaqqPath(namedPkgPath(t)) {
 		return false
@@ -213,6 +278,19 @@ func runC20(r *Run) {
 // detProcessLocalWrites is rule R1 (also run over the positive-control package).
 func detProcessLocalWrites(r *Run, sc *Scopes) {
 	P := r.P
+	// roots of the held-by closure: every keeper-like named type of the analysed program
+	heldMemo, heldRoots = nil, nil
+	for _, pk := range P.Pkgs {
+		if pk.Types == nil {
+			continue
+		}
+		sc2 := pk.Types.Scope()
+		for _, nm := range sc2.Names() {
+			if tn, ok := sc2.Lookup(nm).(*types.TypeName); ok && isProcessLocalRoot(tn.Type()) {
+				heldRoots = append(heldRoots, tn.Type())
+			}
+		}
+	}
 	n, bad := 0, 0
 	for _, fn := range sc.S.HaqqFuncs() {
 		if isTestSupport(P, fn) || isGeneratedFile(P.FileOf(fnPos(fn))) {
